@@ -22,7 +22,7 @@ import os, copy
 from hypothesis import strategies as st
 from lib.runner import Collector, hyp_search, digest, match_known
 from lib.fastsim import compile_dut, FastSim, MigenSim, HarnessError
-from lib.native import NativeSlave
+from lib.native import NativeSlave, native_slave, slave_style
 from lib.aximem14 import AXIMemSlave
 from lib import lfsr
 
@@ -92,7 +92,7 @@ def get_compiled(cfg):
 
 def make_slave(cfg, dut, sl, init):
     if cfg["port"] == "native":
-        return NativeSlave([dut.wp, dut.rp], ready_pattern=sl.get("ready"), wlat=sl.get("wlat"), rlat=sl.get("rlat"), qmax=sl.get("qmax", 8), init=init)
+        return native_slave([dut.wp, dut.rp], sl, init=init)
     return AXIMemSlave(dut.wp, dut.rp, aw_pattern=sl.get("ready"), w_pattern=sl.get("wready"), ar_pattern=sl.get("ready"),
                        r_gap=sl.get("rgap"), rlat=sl.get("rlat"), qmax=sl.get("qmax", 8), init=init)
 
@@ -241,7 +241,7 @@ def run_case(cfg, case, backend="fast", trace=None):
     if r.gen_ran:
         r.gen_done_t = phase(dut.gen, case["gen"] if bist else None, len(gs))
         r.gen_cmds_at_done = sum(1 for e in slave.log if e[0] == "C" and e[3])
-        r.gen_writes_at_done = sum(1 for e in slave.log if e[0] == "W")
+        r.gen_writes_at_done = slave.writes_handed() if hasattr(slave, "writes_handed") else sum(1 for e in slave.log if e[0] == "W")
         k = 0
         while not slave.idle() and k < 64 * stall_limit(case["slave"]):
             step()
@@ -249,6 +249,8 @@ def run_case(cfg, case, backend="fast", trace=None):
         for _ in range(8):
             step()
         r.gen_done_after = sim.get(dut.gen.done)
+    if r.gen_ran and hasattr(slave, "finish"):
+        slave.finish(r.t)      # stream-style port: data beats no command consumed
     r.gen_log = list(slave.log)
     r.gen_lost = list(slave.lost)
     # ---- corruption between generation and check ----
@@ -485,8 +487,12 @@ def _pairs(maxlen, hi):
 def slave_strategy(cfg):
     pat = st.one_of(st.just([]), _pairs(3, 5), st.tuples(st.integers(1, 2), st.integers(6, 25)).map(list))
     if cfg["port"] == "native":
-        return st.fixed_dictionaries(dict(ready=pat, wlat=st.lists(st.integers(3, 14), min_size=1, max_size=4),
+        base = st.fixed_dictionaries(dict(ready=pat, wlat=st.lists(st.integers(3, 14), min_size=1, max_size=4),
                                           rlat=st.lists(st.integers(5, 24), min_size=1, max_size=4), qmax=st.integers(1, 10)))
+        # BIST cores are routinely put on clock-domain-crossing ports (test_bist_csr_cdc): stream-style memory side in a quarter of the cases
+        style = st.one_of(st.just({}), st.just({}), st.just({}),
+                          st.fixed_dictionaries(dict(style=st.just("fifo"), wdepth=st.sampled_from([1, 2, 4, 16]), rdepth=st.sampled_from([1, 2, 4, 16]))))
+        return st.tuples(base, style).map(lambda t: dict(t[0], **t[1]))
     return st.fixed_dictionaries(dict(ready=pat, wready=pat, rlat=st.lists(st.integers(1, 20), min_size=1, max_size=4),
                                       rgap=st.lists(st.integers(0, 3), min_size=1, max_size=3), qmax=st.integers(1, 8)))
 
